@@ -186,31 +186,98 @@ def window(chk, prog):
         if f2 is None:
             chk.blind("VN", f, "function not found")
             continue
-        clos = prog.closures_of.get(f, [])
-        outer = [c for c in clos if c == f + "::{closure#0}"]
-        chk.ob("VN", f, len(outer) == 1, "the mean is computed in the lookup's closure", f2.where(), key="closure")
-        if len(outer) != 1:
-            continue
         try:
-            t = ev.eval_fn(outer[0], [("closure", outer[0], ()), P("timings")])
+            t = ev.eval_fn(f2, [P("self"), P("characteristics")])
         except sym.Undecided as e:
             chk.blind("VN", f, "mean could not be evaluated: %s" % e, f2.where())
             continue
-        tm = P("timings")
+        leaves = [(cs, l) for cs, l in loops.paths(t) if l != ("unreachable",)]
+        # the window: the payload of the map lookup every path starts with
+        looks = {c[0][1] for cs, l in leaves for c in cs if len(c) == 3 and c[0][0] == "discr" and c[0][1][0] == "call" and "HashMap::<" in c[0][1][1] and c[0][1][1].endswith(">::get")}
+        chk.ob("VN", f, len(looks) == 1, "the window is looked up once by the given characteristics (%d lookup(s))" % len(looks), f2.where(), key="closure")
+        if len(looks) != 1:
+            continue
+        look = next(iter(looks))
+        chk.ob("VN", f, look[2] == (fld(P("self"), "timings"), P("characteristics")), "the lookup is self.timings.get(characteristics)", f2.where(), key="lookup")
+        tm = ("vfld", look, "Some", "0")
+        ln = call("alloc::collections::vec_deque::VecDeque::<T, A>::len", tm)
         empty = call("alloc::collections::vec_deque::VecDeque::<T, A>::is_empty", tm)
-        leaves = loops.paths(t)
-        none_ok = any(l == NONE and any(len(c) == 2 and c[0] == empty and c[1] is True for c in cs) for cs, l in leaves)
-        some_l = [l for cs, l in leaves if any(len(c) == 2 and c[0] == empty and c[1] is False for c in cs)]
-        chk.ob("VN", f, none_ok and len(some_l) == 1 and some_l[0][0] == "adt" and some_l[0][2] == "Some", "%s is None for an empty window and Some otherwise" % what, f2.where(), key="empty-guard")
-        if len(some_l) == 1 and some_l[0][0] == "adt" and some_l[0][2] == "Some":
-            v = some_l[0][3][0][1]
+
+        def emptiness(c):
+            """True: the condition says the window is empty; False: non-empty; None: says nothing about it"""
+            if len(c) == 2 and c[0] == empty:
+                return c[1]
+            if len(c) == 3 and loops.strip_widen(c[0]) == ln:
+                zero = any(lo <= 0 <= hi for lo, hi in c[2])
+                return True if c[2] == ((0, 0),) else (False if not zero else None)
+            if len(c) == 2 and c[0][0] == "bin" and c[0][1] in ("Eq", "Ne") and {loops.strip_widen(c[0][2]), loops.strip_widen(c[0][3])} == {ln, C(0, "usize")}:
+                return c[1] if c[0][1] == "Eq" else (not c[1])
+            if len(c) == 2 and c[0][0] == "bin" and c[0][1] in ("Lt", "Gt") and (
+                    (c[0][1] == "Lt" and loops.strip_widen(c[0][2]) == C(0, "usize") and loops.strip_widen(c[0][3]) == ln) or
+                    (c[0][1] == "Gt" and loops.strip_widen(c[0][2]) == ln and loops.strip_widen(c[0][3]) == C(0, "usize"))):
+                return not c[1]
+            return None
+
+        def absent(c):
+            return len(c) == 3 and c[0] == ("discr", look) and not any(lo <= 1 <= hi for lo, hi in c[2])
+        none_l = [cs for cs, l in leaves if l == NONE]
+        some_l = [(cs, l) for cs, l in leaves if l != NONE]
+        none_ok = all(any(absent(c) or emptiness(c) is True for c in cs) for cs in none_l) and any(any(emptiness(c) is True for c in cs) for cs in none_l)
+        some_ok = all(l[0] == "adt" and l[2] == "Some" and any(emptiness(c) is False for c in cs) for cs, l in some_l)
+        chk.ob("VN", f, none_ok and some_ok and len(some_l) == 1, "%s is None for an empty window and Some otherwise" % what, f2.where(), key="empty-guard")
+        if len(some_l) == 1 and some_l[0][1][0] == "adt" and some_l[0][1][2] == "Some":
+            v = some_l[0][1][3][0][1]
             txt = show(canon_calls(v))
-            uses_len = "VecDeque::len(timings)" in txt.replace("alloc::collections::vec_deque::", "") or "len(timings)" in txt
-            uses_sum = "sum(" in txt
-            div = find_op(v, "Div")
+            lens = set()
+            find_calls(v, "VecDeque::<T, A>::len", lens)
+            uses_len = lens == {ln}
+            sums = set()
+            find_calls(v, "::sum", sums)
+            uses_sum = len(sums) == 1 and summed_source(next(iter(sums))[2][0]) == tm
+            divs = set()
+            find_bins(v, "Div", divs)
+
+            def uncast(x):
+                while isinstance(x, tuple) and x and x[0] == "cast":
+                    x = x[1]
+                return x
+            div = len(divs) == 1 and all(uncast(d[2]) in sums and uncast(d[3]) == ln for d in divs)
             chk.ob("VN", f, bool(uses_len and uses_sum and div), "%s = sum over the window / window length (%s)" % (what, txt[:160]), f2.where(), key="mean-form")
     # only the division by the window length is part of the property (the mean of a non-empty window); other arithmetic is not claimed total
     panics.check_no_panic(chk, prog, [TS + "get_average_timing", TS + "get_average_attempts"], "window arithmetic", kinds=["assert:DivisionByZero"])
+
+
+def summed_source(t):
+    """the collection whose elements (mapped one to one) are summed"""
+    while isinstance(t, tuple) and t:
+        if t[0] in ("imap", "seq") and len(t) >= 2 and not (t[0] == "seq" and t[2]):
+            t = t[1]
+        elif t[0] == "iop" and t[1] == "map":
+            t = t[2]
+        else:
+            t2 = iter_source(t)
+            if t2 == t:
+                break
+            t = t2
+    return t
+
+
+def find_calls(t, suffix, out):
+    if isinstance(t, tuple) and t:
+        if t[0] == "call" and isinstance(t[1], str) and t[1].endswith(suffix):
+            out.add(t)
+        for x in t:
+            if isinstance(x, tuple):
+                find_calls(x, suffix, out)
+
+
+def find_bins(t, op, out):
+    if isinstance(t, tuple) and t:
+        if t[0] == "bin" and t[1] == op:
+            out.add(t)
+        for x in t:
+            if isinstance(x, tuple):
+                find_bins(x, op, out)
 
 
 def find_op(t, op):
